@@ -120,7 +120,7 @@ func (f *FS) put(name string, ino *inode) {
 func (f *FS) del(name string) {
 	for i := range f.files {
 		if f.files[i].name == name {
-			f.files = append(f.files[:i:i], f.files[i+1:]...)
+			f.files = vrace.RemoveAt(f.files, i)
 			return
 		}
 	}
@@ -140,9 +140,9 @@ func (f *FS) hasDir(d string) bool {
 //
 //go:norace
 func (f *FS) Clone() *FS {
-	g := &FS{dirs: append([]string(nil), f.dirs...)}
+	g := &FS{dirs: vrace.CloneStrings(f.dirs)}
 	for i, e := range f.files {
-		g.files = append(g.files, ent{e.name, &inode{data: append([]byte(nil), e.ino.data...), synced: e.ino.synced, id: i}})
+		g.files = append(g.files, ent{e.name, &inode{data: vrace.CloneBytes(e.ino.data), synced: e.ino.synced, id: i}})
 	}
 	g.nextIno = len(f.files)
 	return g
@@ -270,7 +270,9 @@ func ImageFrom(base *FS, log []Op, k int) *FS {
 				if int(op.Off) < len(ino.data) {
 					ino.data = ino.data[:op.Off]
 				} else {
-					ino.data = append(ino.data, make([]byte, int(op.Off)-len(ino.data))...)
+					nd := make([]byte, op.Off)
+					vrace.CopyBytes(nd, ino.data)
+					ino.data = nd
 				}
 				if ino.synced > len(ino.data) {
 					ino.synced = len(ino.data)
@@ -281,10 +283,10 @@ func ImageFrom(base *FS, log []Op, k int) *FS {
 				end := op.Off + int64(len(op.Data))
 				if end > int64(len(ino.data)) {
 					nd := make([]byte, end)
-					copy(nd, ino.data)
+					vrace.CopyBytes(nd, ino.data)
 					ino.data = nd
 				}
-				copy(ino.data[op.Off:], op.Data)
+				vrace.CopyBytes(ino.data[op.Off:], op.Data)
 			}
 		case "fsync":
 			if ino := byIno(op); ino != nil {
@@ -440,7 +442,8 @@ func Remove(name string) error {
 			}
 			for i, d := range cur.dirs {
 				if d == name {
-					cur.dirs = append(cur.dirs[:i:i], cur.dirs[i+1:]...)
+					cur.dirs = vrace.RemoveAt(cur.dirs, i)
+					break
 				}
 			}
 			return nil
@@ -529,7 +532,7 @@ func ReadFile(name string) ([]byte, error) {
 	}
 	defer f.Close()
 	pt("read", f.name, false)
-	return append([]byte{}, f.ino.data...), nil
+	return vrace.CloneBytes(f.ino.data), nil
 }
 
 type info struct {
@@ -638,12 +641,12 @@ func (f *File) writeAt(p []byte, off int64) (int, error) {
 	end := off + int64(len(p))
 	if end > int64(len(f.ino.data)) {
 		nd := make([]byte, end)
-		copy(nd, f.ino.data)
+		vrace.CopyBytes(nd, f.ino.data)
 		f.ino.data = nd
 	}
-	copy(f.ino.data[off:], p)
+	vrace.CopyBytes(f.ino.data[off:], p)
 	vrace.ReadRange(unsafe.Pointer(&p[0]), len(p))
-	cur.logOp(Op{Kind: "write", Path: f.name, Data: append([]byte(nil), p...), Off: off, Ino: f.ino.id})
+	cur.logOp(Op{Kind: "write", Path: f.name, Data: vrace.CloneBytes(p), Off: off, Ino: f.ino.id})
 	return len(p), nil
 }
 
@@ -680,7 +683,7 @@ func (f *File) Read(p []byte) (int, error) {
 	if f.off >= int64(len(f.ino.data)) {
 		return 0, io.EOF
 	}
-	n := copy(p, f.ino.data[f.off:])
+	n := vrace.CopyBytes(p, f.ino.data[f.off:])
 	if n > 0 {
 		vrace.WriteRange(unsafe.Pointer(&p[0]), n)
 	}
@@ -697,7 +700,7 @@ func (f *File) ReadAt(p []byte, off int64) (int, error) {
 	if off >= int64(len(f.ino.data)) {
 		return 0, io.EOF
 	}
-	n := copy(p, f.ino.data[off:])
+	n := vrace.CopyBytes(p, f.ino.data[off:])
 	if n > 0 {
 		vrace.WriteRange(unsafe.Pointer(&p[0]), n)
 	}
@@ -742,7 +745,9 @@ func (f *File) Truncate(size int64) error {
 	if size < int64(len(f.ino.data)) {
 		f.ino.data = f.ino.data[:size]
 	} else {
-		f.ino.data = append(f.ino.data, make([]byte, int(size)-len(f.ino.data))...)
+		nd := make([]byte, size)
+		vrace.CopyBytes(nd, f.ino.data)
+		f.ino.data = nd
 	}
 	if f.ino.synced > int(size) {
 		f.ino.synced = int(size)
